@@ -26,7 +26,10 @@ func c16Prop(st *CaseStats, fam int) func(t *rapid.T) {
 		sc.LenEqFreq = true // the property's stated domain
 		cfg := CaseCfg{Family: fam, MaxDocs: 8, MaxIn: 3, HoldAny: true}
 		depth := rapid.SampledFrom([]int{0, 1, 1, 2, 3}).Draw(t, "depth")
-		if fam == FamBlocks || fam == FamWide {
+		if fam == FamCounts && sc.Norm.ID == 3 {
+			sc.Norm = normFns[0] // the extreme norm function is not defined for lengths beyond 2^32
+		}
+		if fam == FamBlocks || fam == FamWide || fam == FamCounts {
 			cfg.MaxIn = 2
 			depth = rapid.SampledFrom([]int{0, 1}).Draw(t, "depth")
 		}
@@ -135,4 +138,10 @@ func TestC16ManyFields(t *testing.T) {
 	st := NewStats("C16ManyFields", c16Rule)
 	defer st.Flush()
 	rapid.Check(t, c16Prop(st, FamManyFields))
+}
+
+func TestC16Counts(t *testing.T) {
+	st := NewStats("C16Counts", c16Rule)
+	defer st.Flush()
+	rapid.Check(t, c16Prop(st, FamCounts))
 }
